@@ -110,6 +110,7 @@ def run(ctx):
     ctx.floor('R09a', n, 15)
     r09b(ctx)
     r09c(ctx)
+    r09d(ctx)
 
 
 def r09b(ctx):
@@ -154,6 +155,53 @@ def r09c(ctx):
     oks = set(signed) >= {'tmcg_mpz_fpowm', 'tmcg_mpz_fspowm'}
     (ctx.ok if oks else ctx.bad)('R09c', 'R09c:sign', 'negative exponents are handled by inversion in the signed variants' if oks else
                                  'sign handling differs between the table-based powers: %s' % sigs, None, nec=False)
+
+
+ARITH_UNITS = ('mpz_spowm.cc', 'mpz_sqrtm.cc', 'mpz_sprime.cc', 'mpz_helper.cc', 'mpz_shash.cc', 'TMCG_Bigint.cc')
+
+
+def r09d(ctx):
+    """word-level arithmetic inside the primitives: a shift evaluated in a 32-bit type (`1 << i` with an int literal) must
+    have a shift amount provably below 32 -- a bit mask built that way for positions of a 64-bit exponent is wrong from
+    bit 32 on (the value is simply another power), and nothing throws.  Today the primitives contain no such shift; the
+    rule is kept armed by a self-test mutant."""
+    from .. import ranges
+    prog = ctx.prog
+    n = 0
+    nf = 0
+    for k, f in sorted(prog.funcs.items(), key=lambda kv: (kv[1]['file'], kv[1]['line'])):
+        if not f.get('body') or not f['file'].endswith(ARITH_UNITS):
+            continue
+        if not any(e.get('k') == 'bin' and e.get('op') in ('<<', '<<=') for e in walk(f['body'])):
+            nf += 1
+            continue
+        nf += 1
+        a = ctx.analysis(f)
+        T = a.T
+        occ = {}
+        for nid, ev in sorted(a.all_events('narrow'), key=lambda x: (x[1][5], x[0])):
+            _, op, x, y, ty, line = ev
+            if op != '<<' or ty not in ('int', 'unsigned int'):
+                continue
+            st = a.instate[nid]
+            r = ranges.interval(a, y, st)
+            hi = r[1] if r is not None else None
+            if hi is None:
+                b = ranges.fact_bounds(a, y, st)
+                hi = b[1] if b is not None else None
+            key0 = 'R09d:%s:%s' % (f['q'], T.show(y, 2)[:40])
+            occ[key0] = occ.get(key0, 0) + 1
+            key = '%s#%d' % (key0, occ[key0])
+            n += 1
+            if hi is not None and hi <= 31:
+                ctx.ok('R09d', key, '32-bit shift by at most %d positions' % hi, f, line=line)
+            else:
+                ctx.bad('R09d', key, 'a shift is evaluated in %s (32 bits) but the shift amount %s is %s: for positions from 32 on the result is not '
+                        'the intended power of two (undefined behaviour; in practice the count wraps modulo 32)' % (
+                            ty, T.show(y, 2), 'bounded only by %d' % hi if hi is not None else 'not bounded'), f, line=line)
+    if n == 0:
+        ctx.ok('R09d', 'R09d:no-narrow-shift', 'no shift is evaluated in a 32-bit type in the %d functions of the arithmetic units' % nf)
+    ctx.floor('R09d', nf, 40)
 
 
 EXPLANATION = ("Sibling agreement of the dual big-integer back end: for every TMCG_Bigint operation that branches on the back end, the set of "
